@@ -10,6 +10,14 @@ Inductive binop :=
 | LessThan | GreaterThan | LessOrEqual | GreaterOrEqual | Equal | NotEqual
 | LogicalAnd | LogicalOr.
 
+(* a part of an interpolated string (ast.rs StringPart): fixed text (after strip_and_escape) or an
+   embedded expression with the raw text of its format specifiers (the lexeme of the
+   StringInterpolationSpecifiers token, which begins with the colon) *)
+Inductive ipart (A : Type) :=
+| PFixed (s : str)
+| PExpr (e : A) (fmt : option str).
+Arguments PFixed {A}. Arguments PExpr {A}.
+
 Inductive expr :=
 | EScalar (lexeme : str)      (* numeric literal: lexeme without underscores (value = Rust's f64 parse of it) *)
 | EScalarExp (k : Z)          (* the scalar made from a unicode exponent token *)
@@ -17,6 +25,7 @@ Inductive expr :=
 | EHole
 | EBool (b : bool)
 | EString (content : str)     (* a string without interpolation, after strip_and_escape *)
+| EInterp (parts : list (ipart expr))  (* an interpolated string; empty fixed parts removed *)
 | EUn (op : unop) (e : expr)
 | EBin (op : binop) (a b : expr)
 | ECall (callee : expr) (args : list expr)
